@@ -45,6 +45,10 @@ const LABELS: [&str; 24] = [
 ];
 
 fn send_over(segs: Vec<Seg>, default_cs: Option<&'static Encoding>) -> Result<attohttpc::Response, String> {
+    // one case in three follows, on its thread, a response whose body could not be read to the end
+    if segs.len() % 3 == 0 {
+        crate::resp::fail_a_body_read_on_this_thread();
+    }
     let _log = install_script(segs);
     // the configured default reaches the request in one of several ways, in rotation: set on the request, on its
     // session, or set to something else first and then to `default_cs` — `None` included: the last value set is
